@@ -6,7 +6,7 @@
    Rename through the generic view is refused with ErrNotImplemented (refuted below); Sub of a mount FS
    above a mount point hides the mounts (known finding, harness only). *)
 From HP Require Import Base.Prelude Base.Path Base.PathProofs KV.Types KV.FS KV.Handle KV.Run KV.GateProofs
-  Compose.Mount Compose.Sub Compose.GateCompose.
+  Compose.Mount Compose.Sub Compose.GateCompose Compose.ErrPaths.
 Open Scope N_scope.
 
 (* The underlying name is exactly base joined with the name ... *)
@@ -50,6 +50,19 @@ Proof.
   split; match goal with |- context [step st ?x] => destruct (step st x) end; reflexivity.
 Qed.
 Print Assumptions C07_view_operation_is_the_parent_operation.
+
+(* Error paths come back in the view's namespace: the path the view addressed translates back to the caller's name, and
+   an error about the base directory itself (it is a regular file, say) is an error about the view's root "." -- the
+   case repaired in /repo (round sixteen). *)
+Theorem C07_error_paths_come_back_in_the_views_namespace : forall base name,
+  valid_path base = true -> valid_path name = true ->
+  strip_path name (sub_route base name) (sub_route base name) = name
+  /\ (base <> dot -> name <> dot -> strip_path name (sub_route base name) base = dot).
+Proof.
+  intros base name Vb Vn. split; [apply strip_path_sub; assumption|].
+  intros Db Dn. apply strip_path_sub_base; assumption.
+Qed.
+Print Assumptions C07_error_paths_come_back_in_the_views_namespace.
 
 (* Refuted: Rename through the generic view is not the parent's Rename. *)
 Theorem C07_rename_through_view_refuted : forall base st a b,
